@@ -317,7 +317,9 @@ func (s Server) Serve(c context.Context, conn network.Conn) (err error) {
 			}
 		}
 
-		connectionClose = s.DisableKeepalive || ctx.Request.Header.ConnectionClose()
+		// a refused 'Expect: 100-continue' request leaves its body unread: whatever the
+		// client has sent of it must not be taken for the next request
+		connectionClose = s.DisableKeepalive || ctx.Request.Header.ConnectionClose() || !continueReadingRequest
 		isHTTP11 = ctx.Request.Header.IsHTTP11()
 
 		if serverName != nil {
